@@ -1,6 +1,6 @@
 (* Lsflow — sFlow v5 datagram decoder (layers/sflow.go): contributions to C19, C05, C01.
    SFlowDatagram has no SerializeTo: C06 and C07 do not apply. *)
-From GP Require Import Base Codec LsflowModel LsflowProofs.
+From GP Require Import Base Codec LsflowModel LsflowProofs LsflowBounds.
 Open Scope Z_scope.
 
 (* C19: for EVERY list of values (not only octets) and every receiver state, no read of the datagram header, the
@@ -17,6 +17,35 @@ Print Assumptions C19_sflow_no_panic.
 Theorem C19_sflow_fuel : forall old data, snd (fst (sf_decode_into old data)) <> Err 99.
 Proof. exact sf_decode_fuel. Qed.
 Print Assumptions C19_sflow_fuel.
+
+(* no unbounded allocation from a hostile count.  (1) both make() sites (AS path members, communities) are behind
+   `count > uint32(len/4)`: a count that passes is backed by four octets of remaining input per element *)
+Theorem C19_sflow_make_guarded : forall c d, cnt_too_big c d = false -> (4 * Z.to_nat c <= length d)%nat.
+Proof. exact cnt_ok. Qed.
+Print Assumptions C19_sflow_make_guarded.
+
+(* (2) every list grown by append — flow records, counter records, AS paths — gets at most one element per four
+   octets consumed, whatever the record / path count says *)
+Theorem C19_sflow_record_lists_bounded : forall fuel cnt d l r,
+  (p_frecs fuel cnt d = Ok (l, r) -> (4 * length l + length r <= length d)%nat) /\
+  (p_crecs fuel cnt d = Ok (l, r) -> (4 * length l + length r <= length d)%nat) /\
+  (p_paths fuel cnt d = Ok (l, r) -> (4 * length l + length r <= length d)%nat).
+Proof. intros. split; [apply frecs_len|]. split; [apply crecs_len | apply paths_len]. Qed.
+Print Assumptions C19_sflow_record_lists_bounded.
+
+(* (3) the two sample lists of the layer together hold at most len(data)/4 samples, for every receiver state and
+   every sample count, also when decoding ends in an error *)
+Theorem C19_sflow_sample_lists_bounded : forall old data,
+  let s := fst (fst (sf_decode_into old data)) in
+  (4 * (length (sf_fs s) + length (sf_cs s)) <= length data)%nat.
+Proof. exact sf_decode_lists_bounded. Qed.
+Print Assumptions C19_sflow_sample_lists_bounded.
+
+(* (4) strings (URL, host, user ids) are copies of at most the octets that remain *)
+Theorem C19_sflow_strings_bounded : forall n extra e d x r, p_xstr n extra e d = Ok (x, r) ->
+  exists b, x = SB b /\ (length b <= length d)%nat /\ (length r <= length d)%nat.
+Proof. exact xstr_bounded. Qed.
+Print Assumptions C19_sflow_strings_bounded.
 
 (* the same for the code before the C05 repair (the repair did not touch any bounds check) *)
 Theorem C19_sflow_orig_no_panic : forall old data, is_panic (snd (fst (sf_decode_into_orig old data))) = false.
